@@ -35,6 +35,8 @@ def gen_cfg(rng):
     if nants > 1:
         c["delays"] = [rng.randint(0, min(3, taps * nb - 1)) for _ in range(nants)]
         c["bg_noise"] = [[0.0, 0.7]]
+    if rng.random() < 0.25:
+        c["element_lists"] = True        # digitiser / filterbank / requantiser handed over as per-antenna, per-polarisation lists
     return c, w
 
 
